@@ -8,6 +8,7 @@ def run(ctx):
     rnd = random.Random(ctx.seed + 303)
     n = 400 if ctx.quick else 2500
     scens = [c02.exact_history(rnd, "y%d" % i, ["global", "global", "sequence", "fourier", "localp", "wavelet"]) for i in range(n)]
+    scens += [gl.local3d_history(rnd, "v%d" % i) for i in range(n // 8)]
     gl.run_grid(ctx, [("exact", scens)], gl.OBS_EXACT, "C03")
     ctx.assume("the spec derives the interpolation space from its tensors and TLC requires it to equal getGlobalPolynomialSpace(true); the observer checks every monomial of it (Fourier: every mode; wavelet / local polynomial with boundary points: affine functions) through getInterpolationWeights at 7 probe points (nodes and interior) and, for grids with outputs, through evaluate() after loading nodal values, at 1e-8")
 
